@@ -18,7 +18,6 @@ package cc
 //@ def rec deltaSum(d []*rtcp.RecvDelta, n int) time.Duration := ite(n <= 0, time.Duration(0), deltaSum(d, n - 1) + time.Duration(d[n - 1].Delta) * time.Microsecond)
 //@
 //@ func (*FeedbackAdapter).unpackRunLengthChunk
-//@   requires in: chunk != nil && f.history != nil && (forall k int :: 0 <= k && k < len(deltas) ==> deltas[k] != nil)
 //@   modifies nothing
 //@   ensures too_few_deltas_rejected: (err != nil) <==> (chunk.PacketStatusSymbol != 0 && len(deltas) < int(chunk.RunLength))
 //@   ensures one_per_status: len(acks) == int(chunk.RunLength)
@@ -49,7 +48,6 @@ package cc
 //@ def rec recvCount(s []uint16, n int) int := ite(n <= 0, 0, recvCount(s, n - 1) + ite(s[n - 1] != 0, 1, 0))
 //@
 //@ func (*FeedbackAdapter).unpackStatusVectorChunk
-//@   requires in: chunk != nil && f.history != nil && (forall k int :: 0 <= k && k < len(deltas) ==> deltas[k] != nil)
 //@   modifies nothing
 //@   ensures one_per_status: len(acks) == len(chunk.SymbolList)
 //@   ensures deltas_consumed: err == nil ==> consumedDeltas == recvCount(chunk.SymbolList, len(chunk.SymbolList)) && 0 <= consumedDeltas && consumedDeltas <= len(deltas)
@@ -74,8 +72,24 @@ package cc
 //@   loop 1 decreases len(chunk.SymbolList) - rangeindex
 //@
 // Frame-only contracts (no postcondition is assumed of these functions by their callers beyond "returns"):
+//@ # the j-th acknowledgement of a TWCC feedback is about transport sequence number base+j, whatever the chunk layout,
+//@ # and carries the size, departure and SSRC recorded for that number when it was sent
 //@ func (*FeedbackAdapter).OnTransportCCFeedback
-//@   modifies *
+//@   modifies f.lock
+//@   ensures attribution: result1 == nil ==> forall j int :: 0 <= j && j < len(result0) && res1(f.history.get(mkstruct("feedbackHistoryKey", 0, feedback.BaseSequenceNumber + uint16(j)))) ==>
+//@           result0[j].SequenceNumber == res0(f.history.get(mkstruct("feedbackHistoryKey", 0, feedback.BaseSequenceNumber + uint16(j)))).SequenceNumber
+//@        && result0[j].Size == res0(f.history.get(mkstruct("feedbackHistoryKey", 0, feedback.BaseSequenceNumber + uint16(j)))).Size
+//@        && result0[j].Departure == res0(f.history.get(mkstruct("feedbackHistoryKey", 0, feedback.BaseSequenceNumber + uint16(j)))).Departure
+//@        && result0[j].SSRC == res0(f.history.get(mkstruct("feedbackHistoryKey", 0, feedback.BaseSequenceNumber + uint16(j)))).SSRC
+//@   ensures error_reports_nothing: result1 != nil ==> len(result0) == 0
+//@   loop 1 invariant aligned: index == feedback.BaseSequenceNumber + uint16(len(result)) && fresh(result)
+//@        && len(recvDeltas) >= 0
+//@   loop 1 invariant attribution: forall j int :: 0 <= j && j < len(result) && res1(f.history.get(mkstruct("feedbackHistoryKey", 0, feedback.BaseSequenceNumber + uint16(j)))) ==>
+//@           result[j].SequenceNumber == res0(f.history.get(mkstruct("feedbackHistoryKey", 0, feedback.BaseSequenceNumber + uint16(j)))).SequenceNumber
+//@        && result[j].Size == res0(f.history.get(mkstruct("feedbackHistoryKey", 0, feedback.BaseSequenceNumber + uint16(j)))).Size
+//@        && result[j].Departure == res0(f.history.get(mkstruct("feedbackHistoryKey", 0, feedback.BaseSequenceNumber + uint16(j)))).Departure
+//@        && result[j].SSRC == res0(f.history.get(mkstruct("feedbackHistoryKey", 0, feedback.BaseSequenceNumber + uint16(j)))).SSRC
+//@   loop 1 decreases len(feedback.PacketChunks) - rangeindex
 //@
 //@ func (*FeedbackAdapter).OnRFC8888Feedback
 //@   modifies *
